@@ -349,7 +349,7 @@ fn part_a(run: &mut Run) {
 // ---------------------------------------------------------------------------
 // (B) schedules
 
-const P8: [&str; 11] = [
+const P8: [&str; 12] = [
     "[xs + [9, me], sc()][0]",
     "[[me, xs[0]], sc()][0]",
     "[{'a': xs, 'b': me}, sc()][0]",
@@ -361,6 +361,8 @@ const P8: [&str; 11] = [
     "[[s.matches('^a'), s.matches('^b'), me], sc()][0]",
     "[[s.matches('b$'), string(me) + s, s.matches('^b')], sc()][0]",
     "[[1, 2].map(me, me * 2) + [me], sc()][0]",
+    // nine comprehension scopes open at once in each thread (a budget shared between threads would show)
+    "[[1].map(a, [2].map(b, [3].map(c, [4].map(d, [5].map(e2, [6].map(g, [7].map(h, [8].map(i, [9].map(j, a + j + me))))))))), sc()][0]",
 ];
 
 struct PartB {
@@ -460,6 +462,11 @@ fn part_b(run: &mut Run) {
             // the exploration covers every interleaving, so (p,q) and (q,p) differ only in the
             // private values of the two threads: the quick tier takes unordered pairs
             if quick && q < p {
+                continue;
+            }
+            // the deep-nesting program has many scheduling points: in the quick tier it meets
+            // itself and two representatives only
+            if quick && q == P8.len() - 1 && ![0usize, 4, P8.len() - 1].contains(&p) {
                 continue;
             }
             configs.push((format!("2t:{}|{}", p, q), vec![vec![p], vec![q]], if quick { 2 } else { 3 }));
